@@ -8,9 +8,9 @@ package trend
 // documented warm-up: the slowest of the three SMMAs, i.e. max(periods)-1
 //@ func AlligatorStrategy.Compute
 //@ requires a.Jaw.Period >= 1 && a.Teeth.Period >= 1 && a.Lip.Period >= 1 && consumed(snapshots) == 0
-//@ ensures[C06] "input-close" len(arg(Smma_Compute, 0, 0)) == len(snapshots) && (forall k :: 0 <= k && k < len(snapshots) ==> arg(Smma_Compute, 0, 0)[k] == snapshots[k].Close)
-//@ ensures[C06] "input-close" len(arg(Smma_Compute, 1, 0)) == len(snapshots) && (forall k :: 0 <= k && k < len(snapshots) ==> arg(Smma_Compute, 1, 0)[k] == snapshots[k].Close)
-//@ ensures[C06] "input-close" len(arg(Smma_Compute, 2, 0)) == len(snapshots) && (forall k :: 0 <= k && k < len(snapshots) ==> arg(Smma_Compute, 2, 0)[k] == snapshots[k].Close)
+//@ guarantees[C06] "input-close" len(arg(Smma_Compute, 0, 0)) == len(snapshots) && (forall k :: 0 <= k && k < len(snapshots) ==> arg(Smma_Compute, 0, 0)[k] == snapshots[k].Close)
+//@ guarantees[C06] "input-close" len(arg(Smma_Compute, 1, 0)) == len(snapshots) && (forall k :: 0 <= k && k < len(snapshots) ==> arg(Smma_Compute, 1, 0)[k] == snapshots[k].Close)
+//@ guarantees[C06] "input-close" len(arg(Smma_Compute, 2, 0)) == len(snapshots) && (forall k :: 0 <= k && k < len(snapshots) ==> arg(Smma_Compute, 2, 0)[k] == snapshots[k].Close)
 //@ ensures[C05] "len" len(snapshots) >= (max(a.Jaw.Period, max(a.Teeth.Period, a.Lip.Period)) - 1) ==> len(result) == len(snapshots)
 //@ ensures[C05] "len-short" len(result) >= len(snapshots)
 //@ ensures[C05] "warmup-hold" forall kk :: 0 <= kk && kk < min((max(a.Jaw.Period, max(a.Teeth.Period, a.Lip.Period)) - 1), len(result)) ==> result[kk] == 0
@@ -21,9 +21,9 @@ package trend
 
 //@ func ApoStrategy.Compute
 //@ requires 1 <= a.Apo.FastPeriod && a.Apo.FastPeriod <= a.Apo.SlowPeriod && consumed(snapshots) == 0
-//@ ensures[C06] "input-close" len(arg(Apo_Compute, 0, 0)) == len(snapshots) && (forall k :: 0 <= k && k < len(snapshots) ==> arg(Apo_Compute, 0, 0)[k] == snapshots[k].Close)
-//@ ensures[C06] "crossing-above-zero-buys" forall k :: 0 <= k && k < len(res(Apo_Compute, 0)) - 1 ==> (res(Apo_Compute, 0)[k+1] > 0 && res(Apo_Compute, 0)[k] < 0 ==> result[k + a.Apo.SlowPeriod] == 1)
-//@ ensures[C06] "crossing-below-zero-sells" forall k :: 0 <= k && k < len(res(Apo_Compute, 0)) - 1 ==> (res(Apo_Compute, 0)[k+1] < 0 && res(Apo_Compute, 0)[k] > 0 ==> result[k + a.Apo.SlowPeriod] == 0 - 1)
+//@ guarantees[C06] "input-close" len(arg(Apo_Compute, 0, 0)) == len(snapshots) && (forall k :: 0 <= k && k < len(snapshots) ==> arg(Apo_Compute, 0, 0)[k] == snapshots[k].Close)
+//@ guarantees[C06] "crossing-above-zero-buys" forall k :: 0 <= k && k < len(res(Apo_Compute, 0)) - 1 ==> (res(Apo_Compute, 0)[k+1] > 0 && res(Apo_Compute, 0)[k] < 0 ==> result[k + a.Apo.SlowPeriod] == 1)
+//@ guarantees[C06] "crossing-below-zero-sells" forall k :: 0 <= k && k < len(res(Apo_Compute, 0)) - 1 ==> (res(Apo_Compute, 0)[k+1] < 0 && res(Apo_Compute, 0)[k] > 0 ==> result[k + a.Apo.SlowPeriod] == 0 - 1)
 //@ ensures[C05] "len" len(snapshots) >= (a.Apo.SlowPeriod) ==> len(result) == len(snapshots)
 //@ ensures[C05] "len-short" len(result) >= len(snapshots)
 //@ ensures[C05] "warmup-hold" forall kk :: 0 <= kk && kk < min((a.Apo.SlowPeriod), len(result)) ==> result[kk] == 0
@@ -34,10 +34,10 @@ package trend
 
 //@ func AroonStrategy.Compute
 //@ requires a.Aroon.Period >= 1 && consumed(c) == 0
-//@ ensures[C06] "input-high" len(arg(Aroon_Compute, 0, 0)) == len(c) && (forall k :: 0 <= k && k < len(c) ==> arg(Aroon_Compute, 0, 0)[k] == c[k].High)
-//@ ensures[C06] "input-low" len(arg(Aroon_Compute, 0, 1)) == len(c) && (forall k :: 0 <= k && k < len(c) ==> arg(Aroon_Compute, 0, 1)[k] == c[k].Low)
-//@ ensures[C06] "up-above-down-buys" forall k :: 0 <= k && k < len(res(Aroon_Compute, 0, 0)) ==> (res(Aroon_Compute, 0, 0)[k] > res(Aroon_Compute, 0, 1)[k] ==> result[k + a.Aroon.Period - 1] == 1)
-//@ ensures[C06] "down-above-up-sells" forall k :: 0 <= k && k < len(res(Aroon_Compute, 0, 0)) ==> (res(Aroon_Compute, 0, 1)[k] > res(Aroon_Compute, 0, 0)[k] ==> result[k + a.Aroon.Period - 1] == 0 - 1)
+//@ guarantees[C06] "input-high" len(arg(Aroon_Compute, 0, 0)) == len(c) && (forall k :: 0 <= k && k < len(c) ==> arg(Aroon_Compute, 0, 0)[k] == c[k].High)
+//@ guarantees[C06] "input-low" len(arg(Aroon_Compute, 0, 1)) == len(c) && (forall k :: 0 <= k && k < len(c) ==> arg(Aroon_Compute, 0, 1)[k] == c[k].Low)
+//@ guarantees[C06] "up-above-down-buys" forall k :: 0 <= k && k < len(res(Aroon_Compute, 0, 0)) ==> (res(Aroon_Compute, 0, 0)[k] > res(Aroon_Compute, 0, 1)[k] ==> result[k + a.Aroon.Period - 1] == 1)
+//@ guarantees[C06] "down-above-up-sells" forall k :: 0 <= k && k < len(res(Aroon_Compute, 0, 0)) ==> (res(Aroon_Compute, 0, 1)[k] > res(Aroon_Compute, 0, 0)[k] ==> result[k + a.Aroon.Period - 1] == 0 - 1)
 //@ ensures[C05] "len" len(c) >= (a.Aroon.Period - 1) ==> len(result) == len(c)
 //@ ensures[C05] "len-short" len(result) >= len(c)
 //@ ensures[C05] "warmup-hold" forall kk :: 0 <= kk && kk < min((a.Aroon.Period - 1), len(result)) ==> result[kk] == 0
@@ -48,12 +48,12 @@ package trend
 
 //@ func BopStrategy.Compute
 //@ requires consumed(c) == 0
-//@ ensures[C06] "input-open" len(arg(Bop_Compute, 0, 0)) == len(c) && (forall k :: 0 <= k && k < len(c) ==> arg(Bop_Compute, 0, 0)[k] == c[k].Open)
-//@ ensures[C06] "input-high" len(arg(Bop_Compute, 0, 1)) == len(c) && (forall k :: 0 <= k && k < len(c) ==> arg(Bop_Compute, 0, 1)[k] == c[k].High)
-//@ ensures[C06] "input-low" len(arg(Bop_Compute, 0, 2)) == len(c) && (forall k :: 0 <= k && k < len(c) ==> arg(Bop_Compute, 0, 2)[k] == c[k].Low)
-//@ ensures[C06] "input-close" len(arg(Bop_Compute, 0, 3)) == len(c) && (forall k :: 0 <= k && k < len(c) ==> arg(Bop_Compute, 0, 3)[k] == c[k].Close)
-//@ ensures[C06] "positive-buys" forall k :: 0 <= k && k < len(res(Bop_Compute, 0)) ==> (res(Bop_Compute, 0)[k] > 0 ==> result[k] == 1)
-//@ ensures[C06] "negative-sells" forall k :: 0 <= k && k < len(res(Bop_Compute, 0)) ==> (res(Bop_Compute, 0)[k] < 0 ==> result[k] == 0 - 1)
+//@ guarantees[C06] "input-open" len(arg(Bop_Compute, 0, 0)) == len(c) && (forall k :: 0 <= k && k < len(c) ==> arg(Bop_Compute, 0, 0)[k] == c[k].Open)
+//@ guarantees[C06] "input-high" len(arg(Bop_Compute, 0, 1)) == len(c) && (forall k :: 0 <= k && k < len(c) ==> arg(Bop_Compute, 0, 1)[k] == c[k].High)
+//@ guarantees[C06] "input-low" len(arg(Bop_Compute, 0, 2)) == len(c) && (forall k :: 0 <= k && k < len(c) ==> arg(Bop_Compute, 0, 2)[k] == c[k].Low)
+//@ guarantees[C06] "input-close" len(arg(Bop_Compute, 0, 3)) == len(c) && (forall k :: 0 <= k && k < len(c) ==> arg(Bop_Compute, 0, 3)[k] == c[k].Close)
+//@ guarantees[C06] "positive-buys" forall k :: 0 <= k && k < len(res(Bop_Compute, 0)) ==> (res(Bop_Compute, 0)[k] > 0 ==> result[k] == 1)
+//@ guarantees[C06] "negative-sells" forall k :: 0 <= k && k < len(res(Bop_Compute, 0)) ==> (res(Bop_Compute, 0)[k] < 0 ==> result[k] == 0 - 1)
 //@ ensures[C05] "len" len(c) >= (0) ==> len(result) == len(c)
 //@ ensures[C05] "len-short" len(result) >= len(c)
 //@ ensures[C05] "warmup-hold" forall kk :: 0 <= kk && kk < min((0), len(result)) ==> result[kk] == 0
@@ -64,11 +64,11 @@ package trend
 
 //@ func CciStrategy.Compute
 //@ requires t.Cci.Period >= 1 && consumed(c) == 0
-//@ ensures[C06] "input-high" len(arg(Cci_Compute, 0, 0)) == len(c) && (forall k :: 0 <= k && k < len(c) ==> arg(Cci_Compute, 0, 0)[k] == c[k].High)
-//@ ensures[C06] "input-low" len(arg(Cci_Compute, 0, 1)) == len(c) && (forall k :: 0 <= k && k < len(c) ==> arg(Cci_Compute, 0, 1)[k] == c[k].Low)
-//@ ensures[C06] "input-close" len(arg(Cci_Compute, 0, 2)) == len(c) && (forall k :: 0 <= k && k < len(c) ==> arg(Cci_Compute, 0, 2)[k] == c[k].Close)
-//@ ensures[C06] "above-100-buys" forall k :: 0 <= k && k < len(res(Cci_Compute, 0)) ==> (res(Cci_Compute, 0)[k] > 100 ==> result[k + t.Cci.IdlePeriod()] == 1)
-//@ ensures[C06] "below-minus-100-sells" forall k :: 0 <= k && k < len(res(Cci_Compute, 0)) ==> (res(Cci_Compute, 0)[k] < 0 - 100 ==> result[k + t.Cci.IdlePeriod()] == 0 - 1)
+//@ guarantees[C06] "input-high" len(arg(Cci_Compute, 0, 0)) == len(c) && (forall k :: 0 <= k && k < len(c) ==> arg(Cci_Compute, 0, 0)[k] == c[k].High)
+//@ guarantees[C06] "input-low" len(arg(Cci_Compute, 0, 1)) == len(c) && (forall k :: 0 <= k && k < len(c) ==> arg(Cci_Compute, 0, 1)[k] == c[k].Low)
+//@ guarantees[C06] "input-close" len(arg(Cci_Compute, 0, 2)) == len(c) && (forall k :: 0 <= k && k < len(c) ==> arg(Cci_Compute, 0, 2)[k] == c[k].Close)
+//@ guarantees[C06] "above-100-buys" forall k :: 0 <= k && k < len(res(Cci_Compute, 0)) ==> (res(Cci_Compute, 0)[k] > 100 ==> result[k + t.Cci.IdlePeriod()] == 1)
+//@ guarantees[C06] "below-minus-100-sells" forall k :: 0 <= k && k < len(res(Cci_Compute, 0)) ==> (res(Cci_Compute, 0)[k] < 0 - 100 ==> result[k + t.Cci.IdlePeriod()] == 0 - 1)
 //@ ensures[C05] "len" len(c) >= (t.Cci.IdlePeriod()) ==> len(result) == len(c)
 //@ ensures[C05] "len-short" len(result) >= len(c)
 //@ ensures[C05] "warmup-hold" forall kk :: 0 <= kk && kk < min((t.Cci.IdlePeriod()), len(result)) ==> result[kk] == 0
@@ -79,10 +79,10 @@ package trend
 
 //@ func DemaStrategy.Compute
 //@ requires d.Dema1.Ema1.Period >= 1 && d.Dema1.Ema2.Period >= 1 && d.Dema2.Ema1.Period >= 1 && d.Dema2.Ema2.Period >= 1 && d.Dema1.IdlePeriod() <= d.Dema2.IdlePeriod() && consumed(c) == 0
-//@ ensures[C06] "input-close" len(arg(Dema_Compute, 0, 0)) == len(c) && (forall k :: 0 <= k && k < len(c) ==> arg(Dema_Compute, 0, 0)[k] == c[k].Close)
-//@ ensures[C06] "input-close" len(arg(Dema_Compute, 1, 0)) == len(c) && (forall k :: 0 <= k && k < len(c) ==> arg(Dema_Compute, 1, 0)[k] == c[k].Close)
-//@ ensures[C06] "fast-above-slow-buys" forall k :: 0 <= k && k < len(res(Dema_Compute, 1)) ==> (res(Dema_Compute, 0)[k + d.Dema2.IdlePeriod() - d.Dema1.IdlePeriod()] > res(Dema_Compute, 1)[k] ==> result[k + d.Dema2.IdlePeriod()] == 1)
-//@ ensures[C06] "slow-above-fast-sells" forall k :: 0 <= k && k < len(res(Dema_Compute, 1)) ==> (res(Dema_Compute, 1)[k] > res(Dema_Compute, 0)[k + d.Dema2.IdlePeriod() - d.Dema1.IdlePeriod()] ==> result[k + d.Dema2.IdlePeriod()] == 0 - 1)
+//@ guarantees[C06] "input-close" len(arg(Dema_Compute, 0, 0)) == len(c) && (forall k :: 0 <= k && k < len(c) ==> arg(Dema_Compute, 0, 0)[k] == c[k].Close)
+//@ guarantees[C06] "input-close" len(arg(Dema_Compute, 1, 0)) == len(c) && (forall k :: 0 <= k && k < len(c) ==> arg(Dema_Compute, 1, 0)[k] == c[k].Close)
+//@ guarantees[C06] "fast-above-slow-buys" forall k :: 0 <= k && k < len(res(Dema_Compute, 1)) ==> (res(Dema_Compute, 0)[k + d.Dema2.IdlePeriod() - d.Dema1.IdlePeriod()] > res(Dema_Compute, 1)[k] ==> result[k + d.Dema2.IdlePeriod()] == 1)
+//@ guarantees[C06] "slow-above-fast-sells" forall k :: 0 <= k && k < len(res(Dema_Compute, 1)) ==> (res(Dema_Compute, 1)[k] > res(Dema_Compute, 0)[k + d.Dema2.IdlePeriod() - d.Dema1.IdlePeriod()] ==> result[k + d.Dema2.IdlePeriod()] == 0 - 1)
 //@ ensures[C05] "len" len(c) >= (d.Dema2.IdlePeriod()) ==> len(result) == len(c)
 //@ ensures[C05] "len-short" len(result) >= len(c)
 //@ ensures[C05] "warmup-hold" forall kk :: 0 <= kk && kk < min((d.Dema2.IdlePeriod()), len(result)) ==> result[kk] == 0
@@ -93,9 +93,9 @@ package trend
 
 //@ func EnvelopeStrategy.Compute
 //@ requires consumed(snapshots) == 0
-//@ ensures[C06] "input-close" len(arg(Envelope_Compute, 0, 0)) == len(snapshots) && (forall k :: 0 <= k && k < len(snapshots) ==> arg(Envelope_Compute, 0, 0)[k] == snapshots[k].Close)
-//@ ensures[C06] "close-below-lower-buys" forall k :: 0 <= k && k < len(res(Envelope_Compute, 0, 0)) ==> (snapshots[k + e.Envelope.IdlePeriod()].Close < res(Envelope_Compute, 0, 2)[k] ==> result[k + e.Envelope.IdlePeriod()] == 1)
-//@ ensures[C06] "close-above-upper-sells" forall k :: 0 <= k && k < len(res(Envelope_Compute, 0, 0)) ==> (snapshots[k + e.Envelope.IdlePeriod()].Close > res(Envelope_Compute, 0, 0)[k] && snapshots[k + e.Envelope.IdlePeriod()].Close >= res(Envelope_Compute, 0, 2)[k] ==> result[k + e.Envelope.IdlePeriod()] == 0 - 1)
+//@ guarantees[C06] "input-close" len(arg(Envelope_Compute, 0, 0)) == len(snapshots) && (forall k :: 0 <= k && k < len(snapshots) ==> arg(Envelope_Compute, 0, 0)[k] == snapshots[k].Close)
+//@ guarantees[C06] "close-below-lower-buys" forall k :: 0 <= k && k < len(res(Envelope_Compute, 0, 0)) ==> (snapshots[k + e.Envelope.IdlePeriod()].Close < res(Envelope_Compute, 0, 2)[k] ==> result[k + e.Envelope.IdlePeriod()] == 1)
+//@ guarantees[C06] "close-above-upper-sells" forall k :: 0 <= k && k < len(res(Envelope_Compute, 0, 0)) ==> (snapshots[k + e.Envelope.IdlePeriod()].Close > res(Envelope_Compute, 0, 0)[k] && snapshots[k + e.Envelope.IdlePeriod()].Close >= res(Envelope_Compute, 0, 2)[k] ==> result[k + e.Envelope.IdlePeriod()] == 0 - 1)
 //@ ensures[C05] "len" len(snapshots) >= (e.Envelope.IdlePeriod()) ==> len(result) == len(snapshots)
 //@ ensures[C05] "len-short" len(result) >= len(snapshots)
 //@ ensures[C05] "warmup-hold" forall kk :: 0 <= kk && kk < min((e.Envelope.IdlePeriod()), len(result)) ==> result[kk] == 0
@@ -106,10 +106,10 @@ package trend
 
 //@ func GoldenCrossStrategy.Compute
 //@ requires 1 <= t.FastEma.Period && t.FastEma.Period <= t.SlowEma.Period && consumed(c) == 0
-//@ ensures[C06] "input-close" len(arg(Ema_Compute, 0, 0)) == len(c) && (forall k :: 0 <= k && k < len(c) ==> arg(Ema_Compute, 0, 0)[k] == c[k].Close)
-//@ ensures[C06] "input-close" len(arg(Ema_Compute, 1, 0)) == len(c) && (forall k :: 0 <= k && k < len(c) ==> arg(Ema_Compute, 1, 0)[k] == c[k].Close)
-//@ ensures[C06] "fast-above-slow-buys" forall k :: 0 <= k && k < len(res(Ema_Compute, 1)) ==> (res(Ema_Compute, 0)[k + t.SlowEma.IdlePeriod() - t.FastEma.IdlePeriod()] > res(Ema_Compute, 1)[k] ==> result[k + t.SlowEma.IdlePeriod()] == 1)
-//@ ensures[C06] "fast-below-slow-sells" forall k :: 0 <= k && k < len(res(Ema_Compute, 1)) ==> (res(Ema_Compute, 0)[k + t.SlowEma.IdlePeriod() - t.FastEma.IdlePeriod()] < res(Ema_Compute, 1)[k] ==> result[k + t.SlowEma.IdlePeriod()] == 0 - 1)
+//@ guarantees[C06] "input-close" len(arg(Ema_Compute, 0, 0)) == len(c) && (forall k :: 0 <= k && k < len(c) ==> arg(Ema_Compute, 0, 0)[k] == c[k].Close)
+//@ guarantees[C06] "input-close" len(arg(Ema_Compute, 1, 0)) == len(c) && (forall k :: 0 <= k && k < len(c) ==> arg(Ema_Compute, 1, 0)[k] == c[k].Close)
+//@ guarantees[C06] "fast-above-slow-buys" forall k :: 0 <= k && k < len(res(Ema_Compute, 1)) ==> (res(Ema_Compute, 0)[k + t.SlowEma.IdlePeriod() - t.FastEma.IdlePeriod()] > res(Ema_Compute, 1)[k] ==> result[k + t.SlowEma.IdlePeriod()] == 1)
+//@ guarantees[C06] "fast-below-slow-sells" forall k :: 0 <= k && k < len(res(Ema_Compute, 1)) ==> (res(Ema_Compute, 0)[k + t.SlowEma.IdlePeriod() - t.FastEma.IdlePeriod()] < res(Ema_Compute, 1)[k] ==> result[k + t.SlowEma.IdlePeriod()] == 0 - 1)
 //@ ensures[C05] "len" len(c) >= (t.SlowEma.IdlePeriod()) ==> len(result) == len(c)
 //@ ensures[C05] "len-short" len(result) >= len(c)
 //@ ensures[C05] "warmup-hold" forall kk :: 0 <= kk && kk < min((t.SlowEma.IdlePeriod()), len(result)) ==> result[kk] == 0
@@ -120,9 +120,9 @@ package trend
 
 //@ func KamaStrategy.Compute
 //@ requires k.Kama.ErPeriod >= 1 && consumed(snapshots) == 0
-//@ ensures[C06] "input-close" len(arg(Kama_Compute, 0, 0)) == len(snapshots) && (forall k :: 0 <= k && k < len(snapshots) ==> arg(Kama_Compute, 0, 0)[k] == snapshots[k].Close)
-//@ ensures[C06] "close-above-kama-buys" forall kk :: 0 <= kk && kk < len(res(Kama_Compute, 0)) ==> (snapshots[kk + k.Kama.IdlePeriod()].Close > res(Kama_Compute, 0)[kk] ==> result[kk + k.Kama.IdlePeriod()] == 1)
-//@ ensures[C06] "close-below-kama-sells" forall kk :: 0 <= kk && kk < len(res(Kama_Compute, 0)) ==> (snapshots[kk + k.Kama.IdlePeriod()].Close < res(Kama_Compute, 0)[kk] ==> result[kk + k.Kama.IdlePeriod()] == 0 - 1)
+//@ guarantees[C06] "input-close" len(arg(Kama_Compute, 0, 0)) == len(snapshots) && (forall k :: 0 <= k && k < len(snapshots) ==> arg(Kama_Compute, 0, 0)[k] == snapshots[k].Close)
+//@ guarantees[C06] "close-above-kama-buys" forall kk :: 0 <= kk && kk < len(res(Kama_Compute, 0)) ==> (snapshots[kk + k.Kama.IdlePeriod()].Close > res(Kama_Compute, 0)[kk] ==> result[kk + k.Kama.IdlePeriod()] == 1)
+//@ guarantees[C06] "close-below-kama-sells" forall kk :: 0 <= kk && kk < len(res(Kama_Compute, 0)) ==> (snapshots[kk + k.Kama.IdlePeriod()].Close < res(Kama_Compute, 0)[kk] ==> result[kk + k.Kama.IdlePeriod()] == 0 - 1)
 //@ ensures[C05] "len" len(snapshots) >= (k.Kama.IdlePeriod()) ==> len(result) == len(snapshots)
 //@ ensures[C05] "len-short" len(result) >= len(snapshots)
 //@ ensures[C05] "warmup-hold" forall kk :: 0 <= kk && kk < min((k.Kama.IdlePeriod()), len(result)) ==> result[kk] == 0
@@ -133,11 +133,11 @@ package trend
 
 //@ func KdjStrategy.Compute
 //@ requires kdj.Kdj.MovingMax.Period >= 1 && kdj.Kdj.MovingMin.Period == kdj.Kdj.MovingMax.Period && kdj.Kdj.Sma1.Period >= 1 && kdj.Kdj.Sma2.Period >= 1 && consumed(c) == 0
-//@ ensures[C06] "input-high" len(arg(Kdj_Compute, 0, 0)) == len(c) && (forall k :: 0 <= k && k < len(c) ==> arg(Kdj_Compute, 0, 0)[k] == c[k].High)
-//@ ensures[C06] "input-low" len(arg(Kdj_Compute, 0, 1)) == len(c) && (forall k :: 0 <= k && k < len(c) ==> arg(Kdj_Compute, 0, 1)[k] == c[k].Low)
-//@ ensures[C06] "input-close" len(arg(Kdj_Compute, 0, 2)) == len(c) && (forall k :: 0 <= k && k < len(c) ==> arg(Kdj_Compute, 0, 2)[k] == c[k].Close)
-//@ ensures[C06] "j-above-k-and-d-buys" forall k :: 0 <= k && k < len(res(Kdj_Compute, 0, 0)) ==> (res(Kdj_Compute, 0, 2)[k] > res(Kdj_Compute, 0, 0)[k] && res(Kdj_Compute, 0, 2)[k] > res(Kdj_Compute, 0, 1)[k] ==> result[k + kdj.Kdj.IdlePeriod()] == 1)
-//@ ensures[C06] "j-below-k-and-d-sells" forall k :: 0 <= k && k < len(res(Kdj_Compute, 0, 0)) ==> (res(Kdj_Compute, 0, 2)[k] < res(Kdj_Compute, 0, 0)[k] && res(Kdj_Compute, 0, 2)[k] < res(Kdj_Compute, 0, 1)[k] ==> result[k + kdj.Kdj.IdlePeriod()] == 0 - 1)
+//@ guarantees[C06] "input-high" len(arg(Kdj_Compute, 0, 0)) == len(c) && (forall k :: 0 <= k && k < len(c) ==> arg(Kdj_Compute, 0, 0)[k] == c[k].High)
+//@ guarantees[C06] "input-low" len(arg(Kdj_Compute, 0, 1)) == len(c) && (forall k :: 0 <= k && k < len(c) ==> arg(Kdj_Compute, 0, 1)[k] == c[k].Low)
+//@ guarantees[C06] "input-close" len(arg(Kdj_Compute, 0, 2)) == len(c) && (forall k :: 0 <= k && k < len(c) ==> arg(Kdj_Compute, 0, 2)[k] == c[k].Close)
+//@ guarantees[C06] "j-above-k-and-d-buys" forall k :: 0 <= k && k < len(res(Kdj_Compute, 0, 0)) ==> (res(Kdj_Compute, 0, 2)[k] > res(Kdj_Compute, 0, 0)[k] && res(Kdj_Compute, 0, 2)[k] > res(Kdj_Compute, 0, 1)[k] ==> result[k + kdj.Kdj.IdlePeriod()] == 1)
+//@ guarantees[C06] "j-below-k-and-d-sells" forall k :: 0 <= k && k < len(res(Kdj_Compute, 0, 0)) ==> (res(Kdj_Compute, 0, 2)[k] < res(Kdj_Compute, 0, 0)[k] && res(Kdj_Compute, 0, 2)[k] < res(Kdj_Compute, 0, 1)[k] ==> result[k + kdj.Kdj.IdlePeriod()] == 0 - 1)
 //@ ensures[C05] "len" len(c) >= (kdj.Kdj.IdlePeriod()) ==> len(result) == len(c)
 //@ ensures[C05] "len-short" len(result) >= len(c)
 //@ ensures[C05] "warmup-hold" forall kk :: 0 <= kk && kk < min((kdj.Kdj.IdlePeriod()), len(result)) ==> result[kk] == 0
@@ -148,9 +148,9 @@ package trend
 
 //@ func MacdStrategy.Compute
 //@ requires 1 <= m.Macd.Ema1.Period && m.Macd.Ema1.Period <= m.Macd.Ema2.Period && m.Macd.Ema3.Period >= 1 && consumed(snapshots) == 0
-//@ ensures[C06] "input-close" len(arg(Macd_Compute, 0, 0)) == len(snapshots) && (forall k :: 0 <= k && k < len(snapshots) ==> arg(Macd_Compute, 0, 0)[k] == snapshots[k].Close)
-//@ ensures[C06] "buy-only-when-macd-above-signal" forall k :: 0 <= k && k < len(res(Macd_Compute, 0, 0)) ==> (result[k + m.Macd.IdlePeriod()] == 1 ==> res(Macd_Compute, 0, 0)[k] > res(Macd_Compute, 0, 1)[k])
-//@ ensures[C06] "sell-only-when-macd-below-signal" forall k :: 0 <= k && k < len(res(Macd_Compute, 0, 0)) ==> (result[k + m.Macd.IdlePeriod()] == 0 - 1 ==> res(Macd_Compute, 0, 0)[k] < res(Macd_Compute, 0, 1)[k])
+//@ guarantees[C06] "input-close" len(arg(Macd_Compute, 0, 0)) == len(snapshots) && (forall k :: 0 <= k && k < len(snapshots) ==> arg(Macd_Compute, 0, 0)[k] == snapshots[k].Close)
+//@ guarantees[C06] "buy-only-when-macd-above-signal" forall k :: 0 <= k && k < len(res(Macd_Compute, 0, 0)) ==> (result[k + m.Macd.IdlePeriod()] == 1 ==> res(Macd_Compute, 0, 0)[k] > res(Macd_Compute, 0, 1)[k])
+//@ guarantees[C06] "sell-only-when-macd-below-signal" forall k :: 0 <= k && k < len(res(Macd_Compute, 0, 0)) ==> (result[k + m.Macd.IdlePeriod()] == 0 - 1 ==> res(Macd_Compute, 0, 0)[k] < res(Macd_Compute, 0, 1)[k])
 //@ ensures[C05] "len" len(snapshots) >= (m.Macd.IdlePeriod()) ==> len(result) == len(snapshots)
 //@ ensures[C05] "len-short" len(result) >= len(snapshots)
 //@ ensures[C05] "warmup-hold" forall kk :: 0 <= kk && kk < min((m.Macd.IdlePeriod()), len(result)) ==> result[kk] == 0
@@ -161,10 +161,10 @@ package trend
 
 //@ func QstickStrategy.Compute
 //@ requires q.Qstick.Sma.Period >= 1 && consumed(c) == 0
-//@ ensures[C06] "input-open" len(arg(Qstick_Compute, 0, 0)) == len(c) && (forall k :: 0 <= k && k < len(c) ==> arg(Qstick_Compute, 0, 0)[k] == c[k].Open)
-//@ ensures[C06] "input-close" len(arg(Qstick_Compute, 0, 1)) == len(c) && (forall k :: 0 <= k && k < len(c) ==> arg(Qstick_Compute, 0, 1)[k] == c[k].Close)
-//@ ensures[C06] "crossing-above-zero-buys" forall k :: 0 <= k && k < len(res(Qstick_Compute, 0)) - 1 ==> (res(Qstick_Compute, 0)[k+1] > 0 && res(Qstick_Compute, 0)[k] < 0 ==> result[k + q.Qstick.Sma.Period] == 1)
-//@ ensures[C06] "crossing-below-zero-sells" forall k :: 0 <= k && k < len(res(Qstick_Compute, 0)) - 1 ==> (res(Qstick_Compute, 0)[k+1] < 0 && res(Qstick_Compute, 0)[k] > 0 ==> result[k + q.Qstick.Sma.Period] == 0 - 1)
+//@ guarantees[C06] "input-open" len(arg(Qstick_Compute, 0, 0)) == len(c) && (forall k :: 0 <= k && k < len(c) ==> arg(Qstick_Compute, 0, 0)[k] == c[k].Open)
+//@ guarantees[C06] "input-close" len(arg(Qstick_Compute, 0, 1)) == len(c) && (forall k :: 0 <= k && k < len(c) ==> arg(Qstick_Compute, 0, 1)[k] == c[k].Close)
+//@ guarantees[C06] "crossing-above-zero-buys" forall k :: 0 <= k && k < len(res(Qstick_Compute, 0)) - 1 ==> (res(Qstick_Compute, 0)[k+1] > 0 && res(Qstick_Compute, 0)[k] < 0 ==> result[k + q.Qstick.Sma.Period] == 1)
+//@ guarantees[C06] "crossing-below-zero-sells" forall k :: 0 <= k && k < len(res(Qstick_Compute, 0)) - 1 ==> (res(Qstick_Compute, 0)[k+1] < 0 && res(Qstick_Compute, 0)[k] > 0 ==> result[k + q.Qstick.Sma.Period] == 0 - 1)
 //@ ensures[C05] "len" len(c) >= (q.Qstick.Sma.Period) ==> len(result) == len(c)
 //@ ensures[C05] "len-short" len(result) >= len(c)
 //@ ensures[C05] "warmup-hold" forall kk :: 0 <= kk && kk < min((q.Qstick.Sma.Period), len(result)) ==> result[kk] == 0
@@ -176,8 +176,8 @@ package trend
 // documented warm-up: the slower SMMA, i.e. max(periods)-1
 //@ func SmmaStrategy.Compute
 //@ requires s.ShortSmma.Period >= 1 && s.LongSmma.Period >= 1 && consumed(snapshots) == 0
-//@ ensures[C06] "input-close" len(arg(Smma_Compute, 0, 0)) == len(snapshots) && (forall k :: 0 <= k && k < len(snapshots) ==> arg(Smma_Compute, 0, 0)[k] == snapshots[k].Close)
-//@ ensures[C06] "input-close" len(arg(Smma_Compute, 1, 0)) == len(snapshots) && (forall k :: 0 <= k && k < len(snapshots) ==> arg(Smma_Compute, 1, 0)[k] == snapshots[k].Close)
+//@ guarantees[C06] "input-close" len(arg(Smma_Compute, 0, 0)) == len(snapshots) && (forall k :: 0 <= k && k < len(snapshots) ==> arg(Smma_Compute, 0, 0)[k] == snapshots[k].Close)
+//@ guarantees[C06] "input-close" len(arg(Smma_Compute, 1, 0)) == len(snapshots) && (forall k :: 0 <= k && k < len(snapshots) ==> arg(Smma_Compute, 1, 0)[k] == snapshots[k].Close)
 //@ ensures[C05] "len" len(snapshots) >= (max(s.ShortSmma.Period, s.LongSmma.Period) - 1) ==> len(result) == len(snapshots)
 //@ ensures[C05] "len-short" len(result) >= len(snapshots)
 //@ ensures[C05] "warmup-hold" forall kk :: 0 <= kk && kk < min((max(s.ShortSmma.Period, s.LongSmma.Period) - 1), len(result)) ==> result[kk] == 0
@@ -188,10 +188,10 @@ package trend
 
 //@ func TrimaStrategy.Compute
 //@ requires 1 <= t.Short.Period && t.Short.Period <= t.Long.Period && consumed(c) == 0
-//@ ensures[C06] "input-close" len(arg(Trima_Compute, 0, 0)) == len(c) && (forall k :: 0 <= k && k < len(c) ==> arg(Trima_Compute, 0, 0)[k] == c[k].Close)
-//@ ensures[C06] "input-close" len(arg(Trima_Compute, 1, 0)) == len(c) && (forall k :: 0 <= k && k < len(c) ==> arg(Trima_Compute, 1, 0)[k] == c[k].Close)
-//@ ensures[C06] "short-above-long-buys" forall k :: 0 <= k && k < len(res(Trima_Compute, 1)) ==> (res(Trima_Compute, 0)[k + t.Long.IdlePeriod() - t.Short.IdlePeriod()] > res(Trima_Compute, 1)[k] ==> result[k + t.Long.IdlePeriod()] == 1)
-//@ ensures[C06] "short-below-long-sells" forall k :: 0 <= k && k < len(res(Trima_Compute, 1)) ==> (res(Trima_Compute, 0)[k + t.Long.IdlePeriod() - t.Short.IdlePeriod()] < res(Trima_Compute, 1)[k] ==> result[k + t.Long.IdlePeriod()] == 0 - 1)
+//@ guarantees[C06] "input-close" len(arg(Trima_Compute, 0, 0)) == len(c) && (forall k :: 0 <= k && k < len(c) ==> arg(Trima_Compute, 0, 0)[k] == c[k].Close)
+//@ guarantees[C06] "input-close" len(arg(Trima_Compute, 1, 0)) == len(c) && (forall k :: 0 <= k && k < len(c) ==> arg(Trima_Compute, 1, 0)[k] == c[k].Close)
+//@ guarantees[C06] "short-above-long-buys" forall k :: 0 <= k && k < len(res(Trima_Compute, 1)) ==> (res(Trima_Compute, 0)[k + t.Long.IdlePeriod() - t.Short.IdlePeriod()] > res(Trima_Compute, 1)[k] ==> result[k + t.Long.IdlePeriod()] == 1)
+//@ guarantees[C06] "short-below-long-sells" forall k :: 0 <= k && k < len(res(Trima_Compute, 1)) ==> (res(Trima_Compute, 0)[k + t.Long.IdlePeriod() - t.Short.IdlePeriod()] < res(Trima_Compute, 1)[k] ==> result[k + t.Long.IdlePeriod()] == 0 - 1)
 //@ ensures[C05] "len" len(c) >= (t.Long.IdlePeriod()) ==> len(result) == len(c)
 //@ ensures[C05] "len-short" len(result) >= len(c)
 //@ ensures[C05] "warmup-hold" forall kk :: 0 <= kk && kk < min((t.Long.IdlePeriod()), len(result)) ==> result[kk] == 0
@@ -202,11 +202,11 @@ package trend
 
 //@ func TripleMovingAverageCrossoverStrategy.Compute
 //@ requires 1 <= t.FastEma.Period && t.FastEma.Period <= t.MediumEma.Period && t.MediumEma.Period <= t.SlowEma.Period && consumed(c) == 0
-//@ ensures[C06] "input-close" len(arg(Ema_Compute, 0, 0)) == len(c) && (forall k :: 0 <= k && k < len(c) ==> arg(Ema_Compute, 0, 0)[k] == c[k].Close)
-//@ ensures[C06] "input-close" len(arg(Ema_Compute, 1, 0)) == len(c) && (forall k :: 0 <= k && k < len(c) ==> arg(Ema_Compute, 1, 0)[k] == c[k].Close)
-//@ ensures[C06] "input-close" len(arg(Ema_Compute, 2, 0)) == len(c) && (forall k :: 0 <= k && k < len(c) ==> arg(Ema_Compute, 2, 0)[k] == c[k].Close)
-//@ ensures[C06] "fast-above-both-buys" forall k :: 0 <= k && k < len(res(Ema_Compute, 2)) ==> (res(Ema_Compute, 0)[k + t.SlowEma.IdlePeriod() - t.FastEma.IdlePeriod()] > res(Ema_Compute, 1)[k + t.SlowEma.IdlePeriod() - t.MediumEma.IdlePeriod()] && res(Ema_Compute, 0)[k + t.SlowEma.IdlePeriod() - t.FastEma.IdlePeriod()] > res(Ema_Compute, 2)[k] ==> result[k + t.SlowEma.IdlePeriod()] == 1)
-//@ ensures[C06] "fast-below-both-sells" forall k :: 0 <= k && k < len(res(Ema_Compute, 2)) ==> (res(Ema_Compute, 0)[k + t.SlowEma.IdlePeriod() - t.FastEma.IdlePeriod()] < res(Ema_Compute, 1)[k + t.SlowEma.IdlePeriod() - t.MediumEma.IdlePeriod()] && res(Ema_Compute, 0)[k + t.SlowEma.IdlePeriod() - t.FastEma.IdlePeriod()] < res(Ema_Compute, 2)[k] ==> result[k + t.SlowEma.IdlePeriod()] == 0 - 1)
+//@ guarantees[C06] "input-close" len(arg(Ema_Compute, 0, 0)) == len(c) && (forall k :: 0 <= k && k < len(c) ==> arg(Ema_Compute, 0, 0)[k] == c[k].Close)
+//@ guarantees[C06] "input-close" len(arg(Ema_Compute, 1, 0)) == len(c) && (forall k :: 0 <= k && k < len(c) ==> arg(Ema_Compute, 1, 0)[k] == c[k].Close)
+//@ guarantees[C06] "input-close" len(arg(Ema_Compute, 2, 0)) == len(c) && (forall k :: 0 <= k && k < len(c) ==> arg(Ema_Compute, 2, 0)[k] == c[k].Close)
+//@ guarantees[C06] "fast-above-both-buys" forall k :: 0 <= k && k < len(res(Ema_Compute, 2)) ==> (res(Ema_Compute, 0)[k + t.SlowEma.IdlePeriod() - t.FastEma.IdlePeriod()] > res(Ema_Compute, 1)[k + t.SlowEma.IdlePeriod() - t.MediumEma.IdlePeriod()] && res(Ema_Compute, 0)[k + t.SlowEma.IdlePeriod() - t.FastEma.IdlePeriod()] > res(Ema_Compute, 2)[k] ==> result[k + t.SlowEma.IdlePeriod()] == 1)
+//@ guarantees[C06] "fast-below-both-sells" forall k :: 0 <= k && k < len(res(Ema_Compute, 2)) ==> (res(Ema_Compute, 0)[k + t.SlowEma.IdlePeriod() - t.FastEma.IdlePeriod()] < res(Ema_Compute, 1)[k + t.SlowEma.IdlePeriod() - t.MediumEma.IdlePeriod()] && res(Ema_Compute, 0)[k + t.SlowEma.IdlePeriod() - t.FastEma.IdlePeriod()] < res(Ema_Compute, 2)[k] ==> result[k + t.SlowEma.IdlePeriod()] == 0 - 1)
 //@ ensures[C05] "len" len(c) >= (t.SlowEma.IdlePeriod()) ==> len(result) == len(c)
 //@ ensures[C05] "len-short" len(result) >= len(c)
 //@ ensures[C05] "warmup-hold" forall kk :: 0 <= kk && kk < min((t.SlowEma.IdlePeriod()), len(result)) ==> result[kk] == 0
@@ -217,9 +217,9 @@ package trend
 
 //@ func TrixStrategy.Compute
 //@ requires t.Trix.Period >= 1 && consumed(snapshots) == 0
-//@ ensures[C06] "input-close" len(arg(Trix_Compute, 0, 0)) == len(snapshots) && (forall k :: 0 <= k && k < len(snapshots) ==> arg(Trix_Compute, 0, 0)[k] == snapshots[k].Close)
-//@ ensures[C06] "positive-buys" forall k :: 0 <= k && k < len(res(Trix_Compute, 0)) ==> (res(Trix_Compute, 0)[k] > 0 ==> result[k + t.Trix.IdlePeriod()] == 1)
-//@ ensures[C06] "negative-sells" forall k :: 0 <= k && k < len(res(Trix_Compute, 0)) ==> (res(Trix_Compute, 0)[k] < 0 ==> result[k + t.Trix.IdlePeriod()] == 0 - 1)
+//@ guarantees[C06] "input-close" len(arg(Trix_Compute, 0, 0)) == len(snapshots) && (forall k :: 0 <= k && k < len(snapshots) ==> arg(Trix_Compute, 0, 0)[k] == snapshots[k].Close)
+//@ guarantees[C06] "positive-buys" forall k :: 0 <= k && k < len(res(Trix_Compute, 0)) ==> (res(Trix_Compute, 0)[k] > 0 ==> result[k + t.Trix.IdlePeriod()] == 1)
+//@ guarantees[C06] "negative-sells" forall k :: 0 <= k && k < len(res(Trix_Compute, 0)) ==> (res(Trix_Compute, 0)[k] < 0 ==> result[k + t.Trix.IdlePeriod()] == 0 - 1)
 //@ ensures[C05] "len" len(snapshots) >= (t.Trix.IdlePeriod()) ==> len(result) == len(snapshots)
 //@ ensures[C05] "len-short" len(result) >= len(snapshots)
 //@ ensures[C05] "warmup-hold" forall kk :: 0 <= kk && kk < min((t.Trix.IdlePeriod()), len(result)) ==> result[kk] == 0
@@ -230,9 +230,9 @@ package trend
 
 //@ func TsiStrategy.Compute
 //@ requires consumed(snapshots) == 0
-//@ ensures[C06] "input-close" len(arg(Tsi_Compute, 0, 0)) == len(snapshots) && (forall k :: 0 <= k && k < len(snapshots) ==> arg(Tsi_Compute, 0, 0)[k] == snapshots[k].Close)
-//@ ensures[C06] "tsi-positive-and-above-signal-buys" forall k :: 0 <= k && k < len(res(Ma_Compute, 0)) ==> (res(Tsi_Compute, 0)[k + t.Signal.IdlePeriod()] > 0 && res(Tsi_Compute, 0)[k + t.Signal.IdlePeriod()] > res(Ma_Compute, 0)[k] ==> result[k + t.IdlePeriod()] == 1)
-//@ ensures[C06] "tsi-negative-and-below-signal-sells" forall k :: 0 <= k && k < len(res(Ma_Compute, 0)) ==> (res(Tsi_Compute, 0)[k + t.Signal.IdlePeriod()] < 0 && res(Tsi_Compute, 0)[k + t.Signal.IdlePeriod()] < res(Ma_Compute, 0)[k] ==> result[k + t.IdlePeriod()] == 0 - 1)
+//@ guarantees[C06] "input-close" len(arg(Tsi_Compute, 0, 0)) == len(snapshots) && (forall k :: 0 <= k && k < len(snapshots) ==> arg(Tsi_Compute, 0, 0)[k] == snapshots[k].Close)
+//@ guarantees[C06] "tsi-positive-and-above-signal-buys" forall k :: 0 <= k && k < len(res(Ma_Compute, 0)) ==> (res(Tsi_Compute, 0)[k + t.Signal.IdlePeriod()] > 0 && res(Tsi_Compute, 0)[k + t.Signal.IdlePeriod()] > res(Ma_Compute, 0)[k] ==> result[k + t.IdlePeriod()] == 1)
+//@ guarantees[C06] "tsi-negative-and-below-signal-sells" forall k :: 0 <= k && k < len(res(Ma_Compute, 0)) ==> (res(Tsi_Compute, 0)[k + t.Signal.IdlePeriod()] < 0 && res(Tsi_Compute, 0)[k + t.Signal.IdlePeriod()] < res(Ma_Compute, 0)[k] ==> result[k + t.IdlePeriod()] == 0 - 1)
 //@ ensures[C05] "len" len(snapshots) >= (t.IdlePeriod()) ==> len(result) == len(snapshots)
 //@ ensures[C05] "len-short" len(result) >= len(snapshots)
 //@ ensures[C05] "warmup-hold" forall kk :: 0 <= kk && kk < min((t.IdlePeriod()), len(result)) ==> result[kk] == 0
@@ -243,11 +243,11 @@ package trend
 
 //@ func VwmaStrategy.Compute
 //@ requires v.Vwma.Period >= 1 && v.Sma.Period == v.Vwma.Period && consumed(c) == 0
-//@ ensures[C06] "input-close" len(arg(Sma_Compute, 0, 0)) == len(c) && (forall k :: 0 <= k && k < len(c) ==> arg(Sma_Compute, 0, 0)[k] == c[k].Close)
-//@ ensures[C06] "input-close" len(arg(Vwma_Compute, 0, 0)) == len(c) && (forall k :: 0 <= k && k < len(c) ==> arg(Vwma_Compute, 0, 0)[k] == c[k].Close)
-//@ ensures[C06] "input-volume" len(arg(Vwma_Compute, 0, 1)) == len(c) && (forall k :: 0 <= k && k < len(c) ==> arg(Vwma_Compute, 0, 1)[k] == c[k].Volume)
-//@ ensures[C06] "vwma-above-sma-buys" forall k :: 0 <= k && k < len(res(Vwma_Compute, 0)) ==> (res(Vwma_Compute, 0)[k] > res(Sma_Compute, 0)[k] ==> result[k + v.Vwma.Period - 1] == 1)
-//@ ensures[C06] "vwma-below-sma-sells" forall k :: 0 <= k && k < len(res(Vwma_Compute, 0)) ==> (res(Vwma_Compute, 0)[k] < res(Sma_Compute, 0)[k] ==> result[k + v.Vwma.Period - 1] == 0 - 1)
+//@ guarantees[C06] "input-close" len(arg(Sma_Compute, 0, 0)) == len(c) && (forall k :: 0 <= k && k < len(c) ==> arg(Sma_Compute, 0, 0)[k] == c[k].Close)
+//@ guarantees[C06] "input-close" len(arg(Vwma_Compute, 0, 0)) == len(c) && (forall k :: 0 <= k && k < len(c) ==> arg(Vwma_Compute, 0, 0)[k] == c[k].Close)
+//@ guarantees[C06] "input-volume" len(arg(Vwma_Compute, 0, 1)) == len(c) && (forall k :: 0 <= k && k < len(c) ==> arg(Vwma_Compute, 0, 1)[k] == c[k].Volume)
+//@ guarantees[C06] "vwma-above-sma-buys" forall k :: 0 <= k && k < len(res(Vwma_Compute, 0)) ==> (res(Vwma_Compute, 0)[k] > res(Sma_Compute, 0)[k] ==> result[k + v.Vwma.Period - 1] == 1)
+//@ guarantees[C06] "vwma-below-sma-sells" forall k :: 0 <= k && k < len(res(Vwma_Compute, 0)) ==> (res(Vwma_Compute, 0)[k] < res(Sma_Compute, 0)[k] ==> result[k + v.Vwma.Period - 1] == 0 - 1)
 //@ ensures[C05] "len" len(c) >= (v.Vwma.Period - 1) ==> len(result) == len(c)
 //@ ensures[C05] "len-short" len(result) >= len(c)
 //@ ensures[C05] "warmup-hold" forall kk :: 0 <= kk && kk < min((v.Vwma.Period - 1), len(result)) ==> result[kk] == 0
@@ -258,11 +258,11 @@ package trend
 
 //@ func WeightedCloseStrategy.Compute
 //@ requires consumed(snapshots) == 0
-//@ ensures[C06] "input-high" len(arg(WeightedClose_Compute, 0, 0)) == len(snapshots) && (forall k :: 0 <= k && k < len(snapshots) ==> arg(WeightedClose_Compute, 0, 0)[k] == snapshots[k].High)
-//@ ensures[C06] "input-low" len(arg(WeightedClose_Compute, 0, 1)) == len(snapshots) && (forall k :: 0 <= k && k < len(snapshots) ==> arg(WeightedClose_Compute, 0, 1)[k] == snapshots[k].Low)
-//@ ensures[C06] "input-close" len(arg(WeightedClose_Compute, 0, 2)) == len(snapshots) && (forall k :: 0 <= k && k < len(snapshots) ==> arg(WeightedClose_Compute, 0, 2)[k] == snapshots[k].Close)
-//@ ensures[C06] "above-average-buys" forall k :: 0 <= k && k < len(res(Ma_Compute, 0)) ==> (res(WeightedClose_Compute, 0)[k + w.Ma.IdlePeriod()] > res(Ma_Compute, 0)[k] ==> result[k + w.Ma.IdlePeriod()] == 1)
-//@ ensures[C06] "below-average-sells" forall k :: 0 <= k && k < len(res(Ma_Compute, 0)) ==> (res(WeightedClose_Compute, 0)[k + w.Ma.IdlePeriod()] < res(Ma_Compute, 0)[k] ==> result[k + w.Ma.IdlePeriod()] == 0 - 1)
+//@ guarantees[C06] "input-high" len(arg(WeightedClose_Compute, 0, 0)) == len(snapshots) && (forall k :: 0 <= k && k < len(snapshots) ==> arg(WeightedClose_Compute, 0, 0)[k] == snapshots[k].High)
+//@ guarantees[C06] "input-low" len(arg(WeightedClose_Compute, 0, 1)) == len(snapshots) && (forall k :: 0 <= k && k < len(snapshots) ==> arg(WeightedClose_Compute, 0, 1)[k] == snapshots[k].Low)
+//@ guarantees[C06] "input-close" len(arg(WeightedClose_Compute, 0, 2)) == len(snapshots) && (forall k :: 0 <= k && k < len(snapshots) ==> arg(WeightedClose_Compute, 0, 2)[k] == snapshots[k].Close)
+//@ guarantees[C06] "above-average-buys" forall k :: 0 <= k && k < len(res(Ma_Compute, 0)) ==> (res(WeightedClose_Compute, 0)[k + w.Ma.IdlePeriod()] > res(Ma_Compute, 0)[k] ==> result[k + w.Ma.IdlePeriod()] == 1)
+//@ guarantees[C06] "below-average-sells" forall k :: 0 <= k && k < len(res(Ma_Compute, 0)) ==> (res(WeightedClose_Compute, 0)[k + w.Ma.IdlePeriod()] < res(Ma_Compute, 0)[k] ==> result[k + w.Ma.IdlePeriod()] == 0 - 1)
 //@ ensures[C05] "len" len(snapshots) >= (w.Ma.IdlePeriod()) ==> len(result) == len(snapshots)
 //@ ensures[C05] "len-short" len(result) >= len(snapshots)
 //@ ensures[C05] "warmup-hold" forall kk :: 0 <= kk && kk < min((w.Ma.IdlePeriod()), len(result)) ==> result[kk] == 0
